@@ -18,6 +18,7 @@ LEVEL_NOTE = ("Not decided: the outcomes over the full declaration × supply pro
 LEVEL_TEXT += (" (E5.file) every `global` declaration is appended to the file's table, which is never assigned or shrunk.")
 LEVEL_TEXT += (' Every successfully parsed `global` (and stanza, `inherit`) is recorded in the file: no guard can drop a repeated declaration before the checker sees it.')
 
+LEVEL_TEXT += (' (C13.V) Value::as_list, the list test of `*` / `+` globals, accepts the List variant only.')
 # the element of a forward iteration over self.globals: `for g in &self.globals` or `self.globals.iter().try_for_each(|g| …)`
 ITEM = r"\(Iterator::next\(&(?:IntoIterator::into_iter\(&\*arg:self\.globals\)|slice::iter\(&\*Deref::deref\(&\*arg:self\.globals\)\))\) as Some\)\.0"
 
@@ -61,6 +62,10 @@ def run(prog, rep):
                 elif c.startswith("PartialEq::eq(") and ".quantifier" in c:
                     m = re.search(r"CaptureQuantifier::(\w+);", c)
                     out.add(("q=" + (m.group(1) if m else "?"), g.value))
+                elif g.variant in ("Zero", "ZeroOrOne", "ZeroOrMore", "One", "OneOrMore") and c.endswith(".quantifier"):
+                    out.add(("q=" + g.variant, True))      # `match global.quantifier { ZeroOrMore | OneOrMore if .. => .. }`
+                elif g.variant is None and g.value is None and c.endswith(".quantifier"):
+                    out.add(("q=other", True))
                 elif c.startswith("Result::is_err(&Value::as_list("):
                     out.add(("as_list.is_err", g.value))
                 elif "Iterator::next" in c and "self.globals" in c and g.variant in ("Some", "None") and re.match(r"^Iterator::next", c):
@@ -93,7 +98,21 @@ def run(prog, rep):
         ok = len(blocks) == 1
         if ok:
             cs = conds(blocks[0])
-            ok = ("get", "Some") in cs and ("as_list.is_err", True) in cs and not any(k.startswith("other") for k, _ in cs)
+            listed = ("as_list.is_err", True) in cs
+            if not listed:
+                # `ZeroOrMore | OneOrMore if value.as_list().is_err() => ..`: the guard is tested once per alternative, so no single
+                # test dominates the arm — but no path from the `Some(value)` edge reaches it except through a true `is_err` edge
+                err_edges, some_dst = set(), []
+                for b2 in sorted(body.reachable()):
+                    for g2 in switch_edges(body, tr, b2):
+                        c2 = canon(g2.cond)
+                        if c2.startswith("Result::is_err(&Value::as_list(") and g2.value is True:
+                            err_edges.add((g2.src, g2.dst))
+                        if g2.variant == "Some" and c2.startswith("Globals::get(") and body.dominates(g2.dst, blocks[0]):
+                            some_dst.append(g2.dst)
+                listed = bool(err_edges) and bool(some_dst) and blocks[0] not in body.reach_from(some_dst, edge_filter=lambda a, b3: (a, b3) not in err_edges)
+            # ... and on nothing else: in particular not on whether the declaration has a default (a supplied value is tested either way)
+            ok = ("get", "Some") in cs and listed and not any(k.startswith("other") or k == "default" for k, _ in cs)
             # reached for both list quantifiers: the as_list test is reachable from ZeroOrMore==true and from OneOrMore==true
             t_edges = {}
             for b in sorted(body.reachable()):
@@ -102,6 +121,10 @@ def run(prog, rep):
                     m = re.search(r"CaptureQuantifier::(\w+);", c)
                     if c.startswith("PartialEq::eq(") and ".quantifier" in c and m and g.value is True:
                         t_edges[m.group(1)] = g.dst
+                    elif g.variant in ("Zero", "ZeroOrOne", "ZeroOrMore", "One", "OneOrMore") and c.endswith(".quantifier"):
+                        # an arm of a `match` on the quantifier: only the arms from which the list test can be reached count
+                        if any(is_callee(body.term(x), r"graph::Value::as_list$") for x in body.reach_from([g.dst]) if body.term(x)["k"] == "call"):
+                            t_edges[g.variant] = g.dst
             al = [b for b, t in body.calls() if is_callee(t, r"graph::Value::as_list$")]
             direct = set(t_edges) == {"ZeroOrMore", "OneOrMore"} and al and all(al[0] in body.reach_from([d]) for d in t_edges.values())
             # or: the disjunction is first stored in a local (`let expects_list = q == * || q == +`) and then tested
@@ -275,3 +298,7 @@ def run(prog, rep):
     ctxf = [fd for fd in prog.adts["tsg::variables::Globals"]["variants"][0]["fields"] if fd["name"] == "context"]
     ct = prog.lib.types[ctxf[0]["ty"]].s if ctxf else ""
     rep.check("&mut" not in ct and re.search(r"&'a \(?dyn", ct) is not None, "C16.R", "Globals.context :: shared", "", ct, "a nested set holds its outer set mutably: %s" % ct)
+    # the list test of `*` / `+` globals is Value::as_list: it accepts the List variant and nothing else
+    from . import C13
+    nv = C13.value_coercions(prog, rep, only={"as_list"})
+    rep.floor("C13.V", nv, 1, "the list coercion used by check_globals")
